@@ -38,7 +38,30 @@ TRUSTED = ['hand-written model coq/Model/Summary.v tied to biom/table.py, biom/u
            'compared at printed precision; std. dev. is the square root (taken by the harness) of the modelled variance',
            'pandas column type inference (ints shown as floats in a padded column) is outside the model: cells compared as numbers']
 from . import regen as _regen
-regenerate = _regen.hook(TRUSTED, ['helpers'])   # py2v: regenerate coq/Gen/* from the source first
+from . import regen_sum as _regen_sum
+from . import core as _core
+_regenerate_helpers = _regen.hook(TRUSTED, ['helpers'])   # py2v: regenerate coq/Gen/HelpersGen.v from the source first
+# py2v_sum: regenerate coq/Gen/SummaryGen.v (biom/util.py compute_counts_per_sample_stats) as well
+_SUM_TRUSTED = []
+_regenerate_summary = _regen_sum.hook(_SUM_TRUSTED, ['summary'], 'coq/Model/Summary.v (r_stats)',
+                                      'coq/Proofs/GenBridgeSummaryProofs.v')
+
+
+def regenerate():
+    """both translators run, also when the first one refuses its source"""
+    first = None
+    try:
+        _regenerate_helpers()
+    except _core.Broken as e:
+        first = e
+    try:
+        _regenerate_summary()
+    finally:
+        TRUSTED.extend(_SUM_TRUSTED)
+    if first is not None:
+        raise first
+
+
 ASSUMPTIONS = ['matrix values are multiples of 1/64 with sums below 2^53 (sums exact in binary64 and in Z)',
                'ids and metadata keys contain no tab, newline, "; " or ": "']
 
